@@ -5,7 +5,7 @@ import json, os, time, random, collections, concurrent.futures as cf
 from . import common as C
 
 FORMULAS = {
-    "C11": ["SafeOps", "OpResult", "DispatchLive", "NoFalseUnimplemented", "NoneIsUnimplemented", "NoOpChanged", "Panic"],
+    "C11": ["SafeOps", "OpResult", "DispatchLive", "DispatchMethod", "NoFalseUnimplemented", "NoneIsUnimplemented", "NoOpChanged", "Panic"],
     "C12": ["PublishedImmutable", "FailedRegNoChange", "AtomicInterval", "KeepServing"],
 }
 NEGS = {"Shallow": "PublishedImmutable", "TwoLoads": "NoTornAnswer", "PerMethod": "AtomicVisibility"}
@@ -111,6 +111,37 @@ def judge(prop, failed, hists, seed):
         viol[key] = dict(property=prop, formula=formula, seed=seed, cases=[by_id.get(case)], history_so_far=ops, observed=ev,
                          signature=sig, more=0, replay_driver="registry")
     return viol, known
+
+
+def method_dispatch_violations(prop, scratch, harness, seed, replay_cases=None):
+    """C01 across registration histories: after RegisterConn / DropConn / re-registration a request still reaches the
+    handler of the method that owns the matching rule (formula DispatchMethod of RegistryTrace.tla), over every binding
+    of every method.  Histories: all of length 3."""
+    if replay_cases is None:
+        r = C.tlc(scratch, "Registry_Hist.tla", "Registry_Hist.cfg", workers=1, timeout=1200, tag="rh-c01")
+        C.tlc_ok(r, "Registry_Hist.cfg")
+        replay_cases = list(C.printed(r["out"], "HIST"))
+        for i, h in enumerate(replay_cases):
+            h["id"] = i + 1
+    hists, stat, failed, _ = run_histories(prop, "quick", scratch, harness, seed, replay_cases)
+    by_id = {h["id"]: h for h in hists}
+    cache, out = {}, {}
+    for sh, case, line, formula in failed:
+        if formula != "DispatchMethod":
+            continue
+        if sh not in cache:
+            cache[sh] = open(sh).read().splitlines()
+        ev = json.loads(cache[sh][line - 1])
+        key = ("DispatchMethod", ev.get("m"), ev.get("proto"))
+        if key in out:
+            out[key]["more"] += 1
+            continue
+        out[key] = dict(property=prop, formula="DispatchMethod", seed=seed, cases=[by_id.get(case)], observed=ev, more=0, replay_driver="registry",
+                        signature=dict(module="Registry", formula="DispatchMethod", m=ev.get("m")),
+                        what="DispatchMethod: after %s a request for %s (%s binding) was answered by the handler of %s" % (
+                            [o["op"] + "(" + o["b"] + ")" for o in by_id.get(case, {}).get("ops", [])], ev.get("m"), ev.get("proto"),
+                            sorted(set(o.get("meth", "") for o in ev["outs"] if o["k"] == "served"))))
+    return out, stat["requests"]
 
 
 def run(prop, tier, replay=None):
